@@ -11,11 +11,22 @@
 (* chosen in Init, so one TLC run explores every scenario.                  *)
 (* Defects: "stale" = remove/insert do not look at the removed mark (the    *)
 (* code before the D1 repair): insert racing remove of the same handle.     *)
+(* The generation counter lives in 0..MaxGen and wraps (0 is never handed   *)
+(* out: all linked nodes are rewritten to generation 1 and the next value   *)
+(* is drawn); InitCurs = the counter values the scenarios start from, so    *)
+(* the wrap is reached at every position of a scenario.                     *)
+(* "draw_unlocked" = the code before the D11 repair: the generation of a    *)
+(* new node is drawn (atomic ++) BEFORE the mutex is taken, the wrap is     *)
+(* {++ -> 0; lock; rewrite; unlock; ++}, and a traversal reads the counter  *)
+(* after releasing the mutex it read head under.  Repaired code: the        *)
+(* generation is drawn inside the critical section that links the node,     *)
+(* and a traversal captures head and counter in one critical section.       *)
 (***************************************************************************)
 EXTENDS Naturals, Sequences, FiniteSets, TLC
-CONSTANTS Threads, Scenarios, InitLen, MaxNodes, Defects
+CONSTANTS Threads, Scenarios, InitLen, MaxNodes, Defects, MaxGen, InitCurs
 Nodes == 1..MaxNodes
 Fixed(d) == d \notin Defects
+Inc(c) == (c + 1) % (MaxGen + 1)
 VARIABLES head, tail, nxt, prv, gen, nalloc, freed, cur, mtx,   \* shared
           prog, ip, pc, loc,                                   \* per thread
           alist, visited, mustVisit, bad                        \* ghost
@@ -32,7 +43,7 @@ Init == /\ head = (IF InitLen = 0 THEN 0 ELSE 1) /\ tail = InitLen
         /\ nxt = [n \in Nodes |-> IF n < InitLen THEN n + 1 ELSE 0]
         /\ prv = [n \in Nodes |-> IF n <= InitLen /\ n > 1 THEN n - 1 ELSE 0]
         /\ gen = [n \in Nodes |-> IF n <= InitLen THEN n ELSE 0]
-        /\ nalloc = InitLen /\ freed = {} /\ cur = InitLen /\ mtx = 0
+        /\ nalloc = InitLen /\ freed = {} /\ cur \in InitCurs /\ mtx = 0
         /\ prog \in Scenarios /\ ip = [t \in Threads |-> 1] /\ pc = [t \in Threads |-> "idle"]
         /\ loc = [t \in Threads |-> NoLoc]
         /\ alist = InitList /\ visited = [t \in Threads |-> <<>>] /\ mustVisit = [t \in Threads |-> {}] /\ bad = "ok"
@@ -77,28 +88,49 @@ Start(t) ==
 \* ---- insert: before.lock() unlocked; allocate; CS
 ILockH(t) == /\ pc[t] = "i_lockh" /\ Commit(head, tail, nxt, prv, gen, nalloc, SetLoc(t, "b", Lock(Op(t).h)))
              /\ Goto(t, "a_ctr") /\ UNCHANGED <<cur, mtx, prog, ip, alist, visited, mustVisit, bad>>
-ACtr(t) == /\ pc[t] = "a_ctr" /\ nalloc < MaxNodes /\ cur' = cur + 1
-           /\ Commit(head, tail, nxt, prv, [gen EXCEPT ![nalloc + 1] = cur + 1], nalloc + 1, SetLoc(t, "node", nalloc + 1))
-           /\ Goto(t, "a_lock") /\ UNCHANGED <<mtx, prog, ip, alist, visited, mustVisit, bad>>
+\* repaired code: the node is allocated with no generation yet (0), the generation is drawn in the critical section (ACs).
+\* before the repair: atomic ++ here; a result of 0 starts the wrap sequence WLock / WReset / WCtr2, each a separate step
+ACtr(t) == /\ pc[t] = "a_ctr" /\ nalloc < MaxNodes
+           /\ IF Fixed("draw_unlocked")
+              THEN /\ Commit(head, tail, nxt, prv, gen, nalloc + 1, SetLoc(t, "node", nalloc + 1)) /\ Goto(t, "a_lock") /\ UNCHANGED cur
+              ELSE /\ cur' = Inc(cur)
+                   /\ IF Inc(cur) # 0
+                      THEN Commit(head, tail, nxt, prv, [gen EXCEPT ![nalloc + 1] = Inc(cur)], nalloc + 1, SetLoc(t, "node", nalloc + 1)) /\ Goto(t, "a_lock")
+                      ELSE Keep /\ UNCHANGED loc /\ Goto(t, "w_lock")
+           /\ UNCHANGED <<mtx, prog, ip, alist, visited, mustVisit, bad>>
+Linked == {n \in Nodes : InSeq(Walk(nxt, head, MaxNodes + 1), n)}
+WLock(t) == /\ pc[t] = "w_lock" /\ mtx = 0 /\ mtx' = t /\ Goto(t, "w_reset") /\ Keep
+            /\ UNCHANGED <<cur, prog, ip, loc, alist, visited, mustVisit, bad>>
+WReset(t) == /\ pc[t] = "w_reset" /\ mtx = t /\ mtx' = 0 /\ Goto(t, "w_ctr2")
+             /\ Commit(head, tail, nxt, prv, [n \in Nodes |-> IF n \in Linked THEN 1 ELSE gen[n]], nalloc, loc)
+             /\ UNCHANGED <<cur, prog, ip, alist, visited, mustVisit, bad>>
+WCtr2(t) == /\ pc[t] = "w_ctr2" /\ nalloc < MaxNodes /\ cur' = Inc(cur)
+            /\ Commit(head, tail, nxt, prv, [gen EXCEPT ![nalloc + 1] = Inc(cur)], nalloc + 1, SetLoc(t, "node", nalloc + 1)) /\ Goto(t, "a_lock")
+            /\ UNCHANGED <<mtx, prog, ip, alist, visited, mustVisit, bad>>
 ALock(t) == /\ pc[t] = "a_lock" /\ mtx = 0 /\ mtx' = t /\ Goto(t, "a_cs") /\ Keep
             /\ UNCHANGED <<cur, prog, ip, loc, alist, visited, mustVisit, bad>>
 LinkTail(n) == <<IF head = 0 THEN n ELSE head, n, IF head = 0 THEN nxt ELSE [nxt EXCEPT ![tail] = n], IF head = 0 THEN prv ELSE [prv EXCEPT ![n] = tail]>>
+\* the generation drawn inside the critical section (repaired code): <<generation of the new node, gen of the others, counter>>
+Draw(n) == IF ~Fixed("draw_unlocked") THEN <<gen[n], gen, cur>>
+           ELSE IF Inc(cur) # 0 THEN <<Inc(cur), [gen EXCEPT ![n] = Inc(cur)], Inc(cur)>>
+           ELSE <<1, [m \in Nodes |-> IF m \in Linked \/ m = n THEN 1 ELSE gen[m]], 1>>
 ACs(t) ==
   /\ pc[t] = "a_cs" /\ mtx = t /\ mtx' = 0
-  /\ LET n == loc[t].node  b == loc[t].b  lc == [loc EXCEPT ![t] = NoLoc] IN
+  /\ LET n == loc[t].node  b == loc[t].b  lc == [loc EXCEPT ![t] = NoLoc]  g == Draw(n)[2] IN
+     /\ cur' = Draw(n)[3]
      /\ IF Op(t).k = "prepend"
-        THEN (IF head = 0 THEN Commit(n, n, nxt, prv, gen, nalloc, lc)
-              ELSE Commit(n, tail, [nxt EXCEPT ![n] = head], [prv EXCEPT ![head] = n], gen, nalloc, lc))
+        THEN (IF head = 0 THEN Commit(n, n, nxt, prv, g, nalloc, lc)
+              ELSE Commit(n, tail, [nxt EXCEPT ![n] = head], [prv EXCEPT ![head] = n], g, nalloc, lc))
         ELSE IF b # 0 /\ (Fixed("stale") => gen[b] # 0)
         THEN Commit(IF b = head THEN n ELSE head, tail,
                     IF prv[b] # 0 THEN [nxt EXCEPT ![n] = b, ![prv[b]] = n] ELSE [nxt EXCEPT ![n] = b],
-                    [prv EXCEPT ![n] = prv[b], ![b] = n], gen, nalloc, lc)
-        ELSE LET l == LinkTail(n) IN Commit(l[1], l[2], l[3], l[4], gen, nalloc, lc)
+                    [prv EXCEPT ![n] = prv[b], ![b] = n], g, nalloc, lc)
+        ELSE LET l == LinkTail(n) IN Commit(l[1], l[2], l[3], l[4], g, nalloc, lc)
      /\ alist' = IF Op(t).k = "prepend" THEN <<n>> \o alist
                  ELSE IF Op(t).k = "insert" /\ InSeq(alist, Op(t).h)
                  THEN LET p == Pos(alist, Op(t).h) IN SubSeq(alist, 1, p - 1) \o <<n>> \o SubSeq(alist, p, Len(alist))
                  ELSE Append(alist, n)
-  /\ Done(t) /\ UNCHANGED <<cur, prog, visited, mustVisit, bad>>
+  /\ Done(t) /\ UNCHANGED <<prog, visited, mustVisit, bad>>
 
 \* ---- remove: lock; handle.lock(); doFreeNode; unlock
 RLock(t) == /\ pc[t] = "r_lock" /\ mtx = 0 /\ mtx' = t /\ Goto(t, "r_cs") /\ Keep
@@ -132,8 +164,9 @@ ERead(t) == /\ pc[t] = "e_read" /\ bad' = IF (head = 0) # (alist = <<>>) /\ mtx 
 \* ---- invoke: lock; node = head; unlock; counter = cur; loop { read node.counter; call; lock; node = node.next; unlock }
 VLock(t) == /\ pc[t] = "v_lock" /\ mtx = 0 /\ mtx' = t /\ Goto(t, "v_head") /\ Keep
             /\ UNCHANGED <<cur, prog, ip, loc, alist, visited, mustVisit, bad>>
-VHead(t) == /\ pc[t] = "v_head" /\ mtx = t /\ mtx' = 0 /\ Commit(head, tail, nxt, prv, gen, nalloc, SetLoc(t, "t", head))
-            /\ Goto(t, "v_ctr") /\ UNCHANGED <<cur, prog, ip, alist, visited, mustVisit, bad>>
+VHead(t) == /\ pc[t] = "v_head" /\ mtx = t /\ mtx' = 0
+            /\ Commit(head, tail, nxt, prv, gen, nalloc, IF Fixed("draw_unlocked") THEN [loc EXCEPT ![t].t = head, ![t].c = cur] ELSE SetLoc(t, "t", head))
+            /\ Goto(t, IF Fixed("draw_unlocked") THEN "v_test" ELSE "v_ctr") /\ UNCHANGED <<cur, prog, ip, alist, visited, mustVisit, bad>>
 VCtr(t) == /\ pc[t] = "v_ctr" /\ Commit(head, tail, nxt, prv, gen, nalloc, SetLoc(t, "c", cur))
            /\ Goto(t, "v_test") /\ UNCHANGED <<cur, mtx, prog, ip, alist, visited, mustVisit, bad>>
 VTest(t) ==
@@ -154,13 +187,15 @@ VStep(t) == /\ pc[t] = "v_step" /\ mtx = t /\ mtx' = 0
             /\ Commit(head, tail, nxt, prv, gen, nalloc, SetLoc(t, "t", nxt[loc[t].t]))
             /\ Goto(t, "v_test") /\ UNCHANGED <<cur, prog, ip, alist, visited, mustVisit, bad>>
 
-Step(t) == OLock(t) \/ OCs(t) \/ ERead(t) \/ Start(t) \/ ILockH(t) \/ ACtr(t) \/ ALock(t) \/ ACs(t) \/ RLock(t) \/ RCs(t)
+Step(t) == OLock(t) \/ OCs(t) \/ ERead(t) \/ Start(t) \/ ILockH(t) \/ ACtr(t) \/ WLock(t) \/ WReset(t) \/ WCtr2(t) \/ ALock(t) \/ ACs(t) \/ RLock(t) \/ RCs(t)
            \/ VLock(t) \/ VHead(t) \/ VCtr(t) \/ VTest(t) \/ VStepLock(t) \/ VStep(t)
 Next == (\E t \in Threads : Step(t)) /\ UNCHANGED prog
 
 Linearizable == bad = "ok"
 RefinesList == mtx = 0 => (Walk(nxt, head, MaxNodes + 1) = alist
                            /\ Walk(prv, tail, MaxNodes + 1) = [i \in 1..Len(alist) |-> alist[Len(alist) + 1 - i]])
+\* no callback of the list is out of reach of the invocations to come (generation above the counter), the removed mark only on removed nodes
+Reachable == mtx = 0 => \A i \in 1..Len(alist) : gen[alist[i]] # 0 /\ gen[alist[i]] <= cur
 AllDone == \A t \in Threads : pc[t] = "idle" /\ ~HasOp(t)
 NoLeakAtEnd == AllDone => \A n \in 1..nalloc : gen[n] = 0 => n \in freed
 NoDeadlock == AllDone \/ ENABLED Next
